@@ -12,6 +12,117 @@ Variable erfc : b64 -> option b64.
 
 (** the function on two non-empty samples, with the statistic abstracted *)
 Definition mwu_body (s : ustat) (a : alt) : uresult :=
+  match us_T s with
+  | [_] => RErrSamplesEqual
+  | _ =>
+      if use_exact s then RExact (us_twoU1 s) (exact_p s a)
+      else if b64_eq (sigma_U s) b64_zero then RErrSamplesEqual
+      else match approx_p erfc s a with
+           | Some p => RApprox (us_twoU1 s) p
+           | None => ROracleMiss
+           end
+  end.
+
+Lemma mwu_cons v1 x1 v2 x2 a :
+  mwu erfc (v1 :: x1) (v2 :: x2) a = mwu_body (ustat_of (v1 :: x1) (v2 :: x2)) a.
+Proof. reflexivity. Qed.
+
+(** the part of the body behind the single-run test *)
+Definition mwu_rest (s : ustat) (a : alt) : uresult :=
+  if use_exact s then RExact (us_twoU1 s) (exact_p s a)
+  else if b64_eq (sigma_U s) b64_zero then RErrSamplesEqual
+  else match approx_p erfc s a with
+       | Some p => RApprox (us_twoU1 s) p
+       | None => ROracleMiss
+       end.
+
+Lemma mwu_body_cases s a :
+  (exists c, us_T s = [c]) /\ mwu_body s a = RErrSamplesEqual
+  \/ (forall c, us_T s <> [c]) /\ mwu_body s a = mwu_rest s a.
+Proof.
+  unfold mwu_body, mwu_rest. destruct (us_T s) as [|c [|d T]].
+  - right. split; [intros c; discriminate | reflexivity].
+  - left. split; [now exists c | reflexivity].
+  - right. split; [intros c'; discriminate | reflexivity].
+Qed.
+
+(** an empty sample, and nothing else, is ErrSampleSize *)
+Theorem err_sample_size_iff x1 x2 a :
+  mwu erfc x1 x2 a = RErrSampleSize <-> (x1 = [] \/ x2 = []).
+Proof.
+  split.
+  - destruct x1 as [|v1 x1]; [now left|]. destruct x2 as [|v2 x2]; [now right|].
+    rewrite mwu_cons. generalize (ustat_of (v1 :: x1) (v2 :: x2)) as s. intros s.
+    destruct (mwu_body_cases s a) as [[_ ->]|[_ ->]]; [discriminate|]. unfold mwu_rest.
+    destruct (use_exact s); [discriminate|].
+    destruct (b64_eq (sigma_U s) b64_zero); [discriminate|]. destruct (approx_p erfc s a); discriminate.
+  - intros [-> | ->]; [reflexivity | destruct x1; reflexivity].
+Qed.
+
+(** all pooled values equal => ErrSamplesEqual, for ALL sizes and both regimes (the
+    single-run test precedes the regime switch) *)
+Theorem err_samples_equal_if_equal x1 x2 a :
+  x1 <> [] -> x2 <> [] -> (exists v, Forall (fun x => x = v) (x1 ++ x2)) ->
+  mwu erfc x1 x2 a = RErrSamplesEqual.
+Proof.
+  intros H1 H2 Hall.
+  destruct x1 as [|v1 x1]; [congruence|]. destruct x2 as [|v2 x2]; [congruence|].
+  rewrite mwu_cons.
+  pose proof (pool_T_single (v1 :: x1) (v2 :: x2)) as HS. rewrite <- us_T_pool in HS.
+  assert (Hne : (v1 :: x1) ++ v2 :: x2 <> []) by (cbn [app]; discriminate).
+  destruct (proj2 HS (conj Hne Hall)) as [c Hc]. unfold mwu_body. now rewrite Hc.
+Qed.
+
+(** in the exact regime: all pooled values equal, and nothing else, is ErrSamplesEqual *)
+Theorem err_samples_equal_iff_exact x1 x2 a :
+  x1 <> [] -> x2 <> [] -> use_exact (ustat_of x1 x2) = true ->
+  (mwu erfc x1 x2 a = RErrSamplesEqual <-> exists v, Forall (fun x => x = v) (x1 ++ x2)).
+Proof.
+  intros H1 H2 He. split; [|now apply err_samples_equal_if_equal].
+  destruct x1 as [|v1 x1]; [congruence|]. destruct x2 as [|v2 x2]; [congruence|].
+  rewrite mwu_cons.
+  pose proof (pool_T_single (v1 :: x1) (v2 :: x2)) as HS. rewrite <- us_T_pool in HS.
+  revert He HS. generalize (ustat_of (v1 :: x1) (v2 :: x2)) as s. intros s He HS.
+  destruct (mwu_body_cases s a) as [[Hc _]|[_ ->]].
+  - intros _. now apply HS.
+  - unfold mwu_rest. rewrite He. discriminate.
+Qed.
+
+(** in the approximate regime: a single run, or sigma == 0 in binary64 (the test the
+    code still performs behind the single-run test) *)
+Theorem err_samples_equal_approx x1 x2 a :
+  x1 <> [] -> x2 <> [] -> use_exact (ustat_of x1 x2) = false ->
+  (mwu erfc x1 x2 a = RErrSamplesEqual <->
+   (exists c, us_T (ustat_of x1 x2) = [c]) \/ b64_eq (sigma_U (ustat_of x1 x2)) b64_zero = true).
+Proof.
+  intros H1 H2 He.
+  destruct x1 as [|v1 x1]; [congruence|]. destruct x2 as [|v2 x2]; [congruence|].
+  rewrite mwu_cons. revert He. generalize (ustat_of (v1 :: x1) (v2 :: x2)) as s. intros s He.
+  destruct (mwu_body_cases s a) as [[Hc ->]|[Hn ->]].
+  - split; [now left | reflexivity].
+  - unfold mwu_rest. rewrite He. destruct (b64_eq (sigma_U s) b64_zero).
+    + split; [now right | reflexivity].
+    + split.
+      * destruct (approx_p erfc s a); discriminate.
+      * intros [[c Hc]|Hz]; [now apply Hn in Hc | discriminate].
+Qed.
+
+(** the model on two constant samples of the same value *)
+Theorem mwu_const_correct (v n1 n2 : Z) a :
+  mwu erfc (repeat v (Z.to_nat n1)) (repeat v (Z.to_nat n2)) a = mwu_const n1 n2.
+Proof.
+  unfold mwu_const. destruct (Z.leb_spec n1 0) as [H1|H1].
+  - replace (Z.to_nat n1) with O by lia. reflexivity.
+  - destruct (Z.leb_spec n2 0) as [H2|H2]; cbn [orb].
+    + replace (Z.to_nat n2) with O by lia. cbn [repeat]. destruct (repeat v (Z.to_nat n1)); reflexivity.
+    + apply err_samples_equal_if_equal.
+      * destruct (Z.to_nat n1) eqn:E; [lia | discriminate].
+      * destruct (Z.to_nat n2) eqn:E; [lia | discriminate].
+      * exists v. apply Forall_app. split; apply Forall_forall; intros x Hx; now apply repeat_spec in Hx.
+Qed.
+
+(** ** the code before hooks/fix_c11_utest_samples_equal_large.diff *)
+Definition mwu_old_body (s : ustat) (a : alt) : uresult :=
   if use_exact s then
     match us_T s with
     | [_] => RErrSamplesEqual
@@ -23,50 +134,30 @@ Definition mwu_body (s : ustat) (a : alt) : uresult :=
        | None => ROracleMiss
        end.
 
-Lemma mwu_cons v1 x1 v2 x2 a :
-  mwu erfc (v1 :: x1) (v2 :: x2) a = mwu_body (ustat_of (v1 :: x1) (v2 :: x2)) a.
+Lemma mwu_old_cons v1 x1 v2 x2 a :
+  mwu_old erfc (v1 :: x1) (v2 :: x2) a = mwu_old_body (ustat_of (v1 :: x1) (v2 :: x2)) a.
 Proof. reflexivity. Qed.
 
-(** an empty sample, and nothing else, is ErrSampleSize *)
-Theorem err_sample_size_iff x1 x2 a :
-  mwu erfc x1 x2 a = RErrSampleSize <-> (x1 = [] \/ x2 = []).
-Proof.
-  split.
-  - destruct x1 as [|v1 x1]; [now left|]. destruct x2 as [|v2 x2]; [now right|].
-    rewrite mwu_cons. generalize (ustat_of (v1 :: x1) (v2 :: x2)) as s. intros s. unfold mwu_body.
-    destruct (use_exact s).
-    + destruct (us_T s) as [|? [|? ?]]; discriminate.
-    + destruct (b64_eq (sigma_U s) b64_zero); [discriminate|]. destruct (approx_p erfc s a); discriminate.
-  - intros [-> | ->]; [reflexivity | destruct x1; reflexivity].
-Qed.
-
-(** in the exact regime: all pooled values equal, and nothing else, is ErrSamplesEqual *)
-Theorem err_samples_equal_iff_exact x1 x2 a :
-  x1 <> [] -> x2 <> [] -> use_exact (ustat_of x1 x2) = true ->
-  (mwu erfc x1 x2 a = RErrSamplesEqual <-> exists v, Forall (fun x => x = v) (x1 ++ x2)).
-Proof.
-  intros H1 H2 He.
-  destruct x1 as [|v1 x1]; [congruence|]. destruct x2 as [|v2 x2]; [congruence|].
-  rewrite mwu_cons.
-  pose proof (pool_T_single (v1 :: x1) (v2 :: x2)) as HS. rewrite <- us_T_pool in HS.
-  revert He HS. generalize (ustat_of (v1 :: x1) (v2 :: x2)) as s. intros s He HS.
-  unfold mwu_body. rewrite He.
-  split.
-  - intros H. apply HS. destruct (us_T s) as [|c [|? ?]]; try discriminate. now exists c.
-  - intros H. assert (Hne : (v1 :: x1) ++ v2 :: x2 <> []) by (cbn [app]; discriminate).
-    destruct (proj2 HS (conj Hne H)) as [c Hc]. rewrite Hc. reflexivity.
-Qed.
-
-(** in the approximate regime the code tests sigma == 0 in binary64 *)
-Theorem err_samples_equal_approx x1 x2 a :
+(** old code, approximate regime: ErrSamplesEqual iff sigma == 0 in binary64, nothing else *)
+Theorem err_samples_equal_approx_old x1 x2 a :
   x1 <> [] -> x2 <> [] -> use_exact (ustat_of x1 x2) = false ->
-  (mwu erfc x1 x2 a = RErrSamplesEqual <-> b64_eq (sigma_U (ustat_of x1 x2)) b64_zero = true).
+  (mwu_old erfc x1 x2 a = RErrSamplesEqual <-> b64_eq (sigma_U (ustat_of x1 x2)) b64_zero = true).
 Proof.
   intros H1 H2 He.
   destruct x1 as [|v1 x1]; [congruence|]. destruct x2 as [|v2 x2]; [congruence|].
-  rewrite mwu_cons. revert He. generalize (ustat_of (v1 :: x1) (v2 :: x2)) as s. intros s He.
-  unfold mwu_body. rewrite He. destruct (b64_eq (sigma_U s) b64_zero); [tauto|].
+  rewrite mwu_old_cons. revert He. generalize (ustat_of (v1 :: x1) (v2 :: x2)) as s. intros s He.
+  unfold mwu_old_body. rewrite He. destruct (b64_eq (sigma_U s) b64_zero); [tauto|].
   destruct (approx_p erfc s a); split; discriminate.
+Qed.
+
+(** the repair changes nothing but the error decision for a single run *)
+Theorem mwu_old_agrees x1 x2 a :
+  (forall c, us_T (ustat_of x1 x2) <> [c]) -> mwu erfc x1 x2 a = mwu_old erfc x1 x2 a.
+Proof.
+  destruct x1 as [|v1 x1]; [reflexivity|]. destruct x2 as [|v2 x2]; [reflexivity|].
+  rewrite mwu_cons, mwu_old_cons. generalize (ustat_of (v1 :: x1) (v2 :: x2)) as s. intros s Hn.
+  unfold mwu_body, mwu_old_body. destruct (us_T s) as [|c [|d T]]; try reflexivity.
+  now specialize (Hn c).
 Qed.
 End Errors.
 
